@@ -1,5 +1,6 @@
 import HapModel.Drv.Basic
 import HapModel.Model.Exec
+import HapModel.Model.SimInv
 namespace Drv
 open Lean Seg Plan
 
@@ -53,5 +54,23 @@ def hSimGen (j : Json) : R Json := do
         | .error e => jErr (errName e)
       pure <| jObj [("plan", jArr (p.map jCopy)), ("child", child)])
   pure <| jObj [("samples", jArr outs)]
+
+def sampleTape (s : Json) : R SampleTape := do
+  let pop ← natF s "pop"
+  let haps := (← listF nat s "haps").toArray
+  let evs ← listF event s "events"
+  match ← listF nat s "bits" with
+  | [] => throw "no bits"
+  | b0 :: rest => pure ⟨pop, fun h => haps.getD h 0, evs, b0, rest⟩
+
+/-- {"op":"simAll","chroms":[…],"cmEnd":[…],"gens":[[sample…]…]} → every generation of `Plan.simulateAll`, each
+    one computed from the model's own previous generation (starting from nothing) -/
+def hSimAll (j : Json) : R Json := do
+  let chroms := (← listF nat j "chroms").toArray
+  let cmEndA := (← listF int j "cmEnd").toArray
+  let gens ← (← arrF j "gens").mapM (fun g => do (← arr g).mapM sampleTape)
+  match simulateAll chroms.size (fun i => chroms.getD i 0) (fun i => cmEndA.getD i 0) #[] gens with
+  | none => pure <| jObj [("gens", jErr "failed")]
+  | some gs => pure <| jObj [("gens", jArr (gs.map (fun g => jArr (g.toList.map (fun h => jArr (h.toList.map jSeg))))))]
 
 end Drv
